@@ -17,6 +17,11 @@ def instances(tier):
     for (k, sym) in ([(1, 1), (2, 1), (3, 1), (8, 0)] if tier == 'quick' else [(1, 1), (2, 1), (3, 1), (4, 1), (5, 1), (8, 0), (16, 0)]):
         out.append((B, 'VH_C01_boc_chain', [k, sym], {'weight': 100 * k}))
     out.append((B, 'VH_C01_boc_sharing', [], {'weight': 300}))
+    for shape in (0, 1):
+        for o in (range(8) if tier == 'quick' else [-1]):
+            out.append((B, 'VH_C01_boc_dag', [shape, o], {'weight': 5 if o >= 0 else 3000}))
+    for o in ([0] if tier == 'quick' else [-1, 0, 7]):
+        out.append((B, 'VH_C01_boc_dag', [2, o], {'weight': 1500}))
     for k in ([3] if tier == 'quick' else [2, 3, 4]):
         out.append((B, 'VH_C01_boc_wide', [k], {'weight': 1000 * k}))
     for (k, o) in ([(256, 7)] if tier == 'quick' else [(255, 0), (255, 7), (256, 0), (256, 7), (257, 2), (257, 5)]):
@@ -31,8 +36,8 @@ def instances(tier):
 
 CHECK = dict(
     id='C01', pkgs=['boc'], init_pkgs=['std:io', 'boc'], instances=instances, opts={'budget_s': 1800, 'hash_injective': True, 'unwind': 1200},
-    level_text='Cell record codec: for a cell with n data bits (arbitrary buffer contents incl. stale bits beyond the written length), any type 0..4, any level mask, r references, bocReprWithoutRefs/d1/d2 produce exactly the descriptor bytes, data and completion tag of the format, and deserializeCellData inverts the record (bits, length, type, mask, ordered reference indices, empty residue) and re-serialises canonically; records written by another serialiser in with-hashes mode (every level mask) parse to the same cell; whole-BOC round trip and canonical bytes for chains of 1..3 cells with symbolic data and a concrete chain of 8 cells under all 8 option combinations, and across the 1-byte/2-byte offset-width boundary (3 cells of ~1000 bits); the 1-byte/2-byte index-width boundary at 256 cells as a CONCRETE execution inside the encoder (chains of 255/256/257 cells, no symbolic input: symbolic data did not finish); a diamond with an equal twin leaf is stored with 4 cells and parses to a shared object; bags laid out by hand from the TL-B definition of all three containers (b5ee9c72 with symbolic flag bits, 68ff65f3, acc3a728), index width 1..4 bytes, offset width 1..8 bytes, one root or two roots in non-trivial order, parse to the intended trees.',
-    level_note='SHA-256 ideal (injective), CRC32C uninterpreted. Whole-BOC shapes are chains, one diamond with a twin leaf and a two-root bag; other DAG shapes, the 65536-cell reference-width transition of the serialiser (the 256-cell one is covered concretely only; the parser is covered for every width) and mainnet fixtures are outside the bound.',
+    level_text='Cell record codec: for a cell with n data bits (arbitrary buffer contents incl. stale bits beyond the written length), any type 0..4, any level mask, r references, bocReprWithoutRefs/d1/d2 produce exactly the descriptor bytes, data and completion tag of the format, and deserializeCellData inverts the record (bits, length, type, mask, ordered reference indices, empty residue) and re-serialises canonically; records written by another serialiser in with-hashes mode (every level mask) parse to the same cell; whole-BOC round trip and canonical bytes for chains of 1..3 cells with symbolic data and a concrete chain of 8 cells under all 8 option combinations, and across the 1-byte/2-byte offset-width boundary (3 cells of ~1000 bits); the 1-byte/2-byte index-width boundary at 256 cells as a CONCRETE execution inside the encoder (chains of 255/256/257 cells, no symbolic input: symbolic data did not finish); a diamond with an equal twin leaf is stored with 4 cells and parses to a shared object; further DAG shapes through import / de-duplication / reordering and back (root with four leaves, two levels with a leaf shared by both inner cells, a leaf shared at two depths): every cell stored once, root at index 0, same tree with shared objects, canonical bytes - quick: each of the 8 option combinations concretely with a symbolic root, thorough: options symbolic; bags laid out by hand from the TL-B definition of all three containers (b5ee9c72 with symbolic flag bits, 68ff65f3, acc3a728), index width 1..4 bytes, offset width 1..8 bytes, one root or two roots in non-trivial order, parse to the intended trees.',
+    level_note='SHA-256 ideal (injective), CRC32C uninterpreted. Whole-BOC shapes are chains, one diamond with a twin leaf, three further DAG shapes and a two-root bag; several SYMBOLIC leaves at once (symbolic de-duplication) did not finish; other DAG shapes, the 65536-cell reference-width transition of the serialiser (the 256-cell one is covered concretely only; the parser is covered for every width) and mainnet fixtures are outside the bound.',
     bounds={'quick': {'data bits': 'all 8 residues x byte lengths {0,1,2,63,126,127}', 'refs': [0, 1, 4]}, 'thorough': {'data bits': '0..1023', 'refs': '0..4'}},
     outside_claim=['more than 16 cells', 'depth near 1024', 'serialiser ref-width transition at 65536 cells; the one at 256 cells only for concrete chains', 'absent cells', 'mainnet fixtures'],
 )
